@@ -6,6 +6,7 @@ package spynode
 // hook utx.afterMempool between ConsumeA and ConsumeB.
 
 import (
+	"bytes"
 	"context"
 	"crypto/sha256"
 	"fmt"
@@ -410,6 +411,15 @@ func (h *txH) step(a txAct) (res string) {
 			h.n.handleMessage(ctx, tx)
 		case "UT":
 			h.utrusted[wire.CmdTx].Handle(ctx, tx)
+		case "UX", "TX":
+			var buf bytes.Buffer
+			tx.BtcEncode(&buf, wire.ProtocolVersion)
+			ext := &wire.MsgExtended{ExtCommand: wire.CmdTx, Length: uint64(buf.Len()), Payload: buf.Bytes()}
+			if a.S == "UX" {
+				h.utrusted[wire.CmdExtended].Handle(ctx, ext)
+			} else {
+				h.n.handleMessage(ctx, ext)
+			}
 		case "LOC":
 			if err := h.n.SendTx(ctx, tx); err != nil {
 				return "SendTx: " + err.Error()
@@ -418,7 +428,7 @@ func (h *txH) step(a txAct) (res string) {
 		h.drainOut()
 		h.arr++
 		if len(h.n.unconfTxChannel.Channel) > before {
-			h.q = append(h.q, txQ{T: a.T, Tr: a.S != "UT", Safe: a.S == "LOC"})
+			h.q = append(h.q, txQ{T: a.T, Tr: a.S != "UT" && a.S != "UX", Safe: a.S == "LOC"})
 		}
 	case "Inv":
 		inv := wire.NewMsgInv()
@@ -455,7 +465,8 @@ func (h *txH) step(a txAct) (res string) {
 		go func() { h.done <- h.n.processUnconfirmedTx(ctx, x) }()
 		select {
 		case <-reached:
-			h.c = txC{Pc: "mid", T: h.idOfTx[*x.Msg.TxHash()], Tr: item.Tr, Safe: item.Safe}
+			_ = item
+			h.c = txC{Pc: "mid", T: h.idOfTx[*x.Msg.TxHash()], Tr: x.Trusted, Safe: x.Safe} // what the channel item really says
 		case err := <-h.done:
 			verifHook = nil
 			if err != nil {
